@@ -15,6 +15,7 @@ RULE = ("(a) mpz_export/mpz_import over the WHOLE parameter space size 1..16 x o
         "position of every output (incl. gmp_fprintf), every 4-byte raw header over {00,01,7f,80,ff}^4 followed by 0..8 data bytes: return 0 / -1, "
         "no crash, allocator balanced after clear, destination reassignable. distinct_nontrivial = distinct (function, parameters / fault position "
         "class, outcome) tuples.")
+RULE = RULE + (" " + 'Later additions: the whole size x nails x misalignment space in the quick tier; raw magnitudes with every count of leading zero bytes; an --enable-alloca=debug pass for fault paths between TMP_MARK and TMP_FREE; rationals whose multi-limb denominator has low limb 1.')
 ASSUMPTIONS = ["a Python packer written from the manual is the reference for the export word format and the raw format",
                "a truncated TEXT stream may still hold a valid shorter number: return values are asserted against the reference parse of the prefix",
                "raw headers announcing more than 64 MiB are not generated"]
